@@ -6,6 +6,7 @@ PROPS = "RotoV.Props.C07"
 MODULES = [
     "RotoV.Lemmas.TcRules", "RotoV.Lemmas.UnifyTc", "RotoV.Lemmas.Typing", "RotoV.Lemmas.TypingAux", "RotoV.Lemmas.TypingMono", "RotoV.Lemmas.TypingProg",
     "RotoV.Model.Typing", "RotoV.Model.TcRules", "RotoV.Model.UnifyTc",
+    "RotoV.Model.TcInfer", "RotoV.Model.TcInferPinned", "RotoV.Lemmas.TcInferUnify", "RotoV.Lemmas.TcInferSound", "RotoV.Lemmas.TcInferSoundMain", "RotoV.Lemmas.TcInferObls", "RotoV.Lemmas.TcInferProg", "RotoV.Model.TcInferSem",
 ]
 
 
@@ -18,7 +19,7 @@ def search(ctx):
 
 
 def run(ctx):
-    ctx.extract(["c07facts"])
+    ctx.extract(["c07facts", "c07arms"])
     ctx.prove(PROPS, extra_modules=MODULES)
     if ctx.build_harness("c07"):
         ctx.harness("c07", ["run", ctx.seed, ctx.tier], timeout=3000)
@@ -31,7 +32,12 @@ def run(ctx):
         "verif_hooks::c07::unify_script; path compression of UnionFind::find and the generic substitution of "
         "record_fields are not modelled",
         "SAMPLED, not proved: the quantifier over programs (generated well-typed scripts + one type-breaking edit); "
-        "inference itself (TypeChecker::expr) is covered by this run only — infer_sound is not proved",
+        "inference (TypeChecker::expr): infer_sound_partial covers function bodies of the core fragment modulo "
+        "existence of a solution of the final store; the other constructs are covered by the differential run of "
+        "the model TcInfer.checkProgM against the real checker only",
+        "the translator target c07arms (call skeleton of TypeChecker::expr & co.: which helper, which order, which "
+        "expected type; locals alpha-renamed) and its pinned copy Model/TcInferPinned.lean: the claim that "
+        "Model/TcInfer.lean does what those arms do rests on the differential run (phase infer), which is testing",
         "Runtime::new() (no registered types / context); single-file scripts",
     ]
     return ctx.finish(
@@ -40,7 +46,8 @@ def run(ctx):
              "counted only if the Lean declarative checker rejects it; a class is distinct by (edit kind, rule "
              "broken, category of the reported type error). Tables: every (operator, left shape, right shape) "
              "of the operator table (7 536 rows) by outcome; match heads by (variants, arms, verdict); "
-             "unification scripts by (#ok, #fail, #variables)",
+             "unification scripts by (#ok, #fail, #variables); inference model vs checker by (representative | edit "
+             "kind, verdict incl. class of report)",
         search=search,
     )
 
